@@ -1,6 +1,6 @@
 (* Property C19 — permission-gated code execution never runs a forbidden construct.
    Only statements and [exact]; proofs live in Proofs/PermProofs.v. *)
-From PG Require Import Common.Tactics Gen.PermTable Model.Perm Proofs.PermProofs Proofs.PermInstance.
+From PG Require Import Common.Tactics Gen.PermTable Model.Perm Proofs.PermProofs Proofs.PermInstance Model.EvalModel Gen.EvalShape Proofs.EvalProofs Proofs.EvalInstance.
 From Coq Require Import NArith.
 Local Open Scope N_scope.
 
@@ -70,3 +70,22 @@ Theorem C19_evaluate_refuses : forall arg scopes t n f,
   evaluate_accepts tbl arg scopes t = false.
 Proof. exact evaluate_refuses. Qed.
 Print Assumptions C19_evaluate_refuses.
+
+(* ---- the last-statement handling of evaluate(): each side effect exactly once, same bindings, documented result ----
+   Stated for every plan satisfying the decidable [shape_ok]; the plan regenerated from the current execution.py
+   (Gen/EvalShape.v) satisfies it (instance obligation generated_shape_ok, re-checked on every run). *)
+Theorem C19_evaluate_effects_once : forall p, prog_wf p = true ->
+  effects (evaluate_events shape p) = effects (plain p).
+Proof. intros p Hp. exact (effects_equal shape p generated_shape_ok Hp). Qed.
+Print Assumptions C19_evaluate_effects_once.
+
+Theorem C19_evaluate_same_bindings : forall p n, prog_wf p = true -> n <> result_name ->
+  last_store n (evaluate_events shape p) = last_store n (plain p).
+Proof. intros p n Hp Hn. exact (bindings_equal shape p n generated_shape_ok Hp Hn). Qed.
+Print Assumptions C19_evaluate_same_bindings.
+
+Theorem C19_evaluate_result_is_last_value : forall p body last e, prog_wf p = true ->
+  split_last p = Some (body, last) -> s_value last = Some e -> (is_expr last || is_assign last) = true ->
+  last_store result_name (evaluate_events shape p) = Some e.
+Proof. exact generated_result_is_last_value. Qed.
+Print Assumptions C19_evaluate_result_is_last_value.
